@@ -84,6 +84,8 @@ enum Work {
     /// V accepts and keeps writing to a slowly reading peer: its send window is
     /// usually exhausted when the fault hits
     TcpVictimWrites,
+    /// V dials p1 and never reads; p1 (the acceptor) keeps writing into the full window
+    TcpVictimDials,
     /// V holds UDP sockets and a multicast membership, peers keep sending
     Udp,
     /// V idles with nested spawned tasks holding drop guards
@@ -113,6 +115,19 @@ async fn victim(s: S, work: Work, spawn_kind: usize) -> turmoil::Result {
     });
     match work {
         Work::Idle => std::future::pending().await,
+        Work::TcpVictimDials => {
+            // keep the stream, never read from it
+            loop {
+                match TcpStream::connect(("p1", 81)).await {
+                    Ok(st) => {
+                        let _g = Guard::new(&s);
+                        let _keep = st;
+                        std::future::pending::<()>().await;
+                    }
+                    Err(_) => tokio::time::sleep(Duration::from_millis(1)).await,
+                }
+            }
+        }
         Work::FsRing => fs_ring_loop(s.clone(), inc).await,
         Work::Udp => {
             let a = match UdpSocket::bind(("0.0.0.0", 9)).await {
@@ -403,6 +418,48 @@ async fn udp_peer(s: S) -> turmoil::Result {
     }
 }
 
+/// another member of the multicast group, on an uninvolved host: it must keep receiving
+async fn group_member(s: S) -> turmoil::Result {
+    let sock = UdpSocket::bind(("0.0.0.0", 9)).await?;
+    sock.join_multicast_v4("239.1.1.1".parse().unwrap(), "0.0.0.0".parse().unwrap())?;
+    let mut buf = [0u8; 8];
+    loop {
+        let (n, from) = sock.recv_from(&mut buf).await?;
+        let e = turmoil::sim_elapsed().unwrap_or_default();
+        s.borrow_mut().bystander.push(format!("m2 got {:?} from {} at {:?}", &buf[..n], from.port(), e));
+    }
+}
+
+/// the victim dials out: a surviving *acceptor* writes into a victim that never reads
+async fn writing_acceptor(s: S) -> turmoil::Result {
+    let l = TcpListener::bind(("0.0.0.0", 81)).await?;
+    loop {
+        let id = op_start(&s, "p1", "accept", None);
+        let (mut st, _) = l.accept().await?;
+        op_done(&s, id, "ok".into());
+        let cs = s.borrow().step;
+        let s2 = s.clone();
+        tokio::task::spawn_local(async move {
+            let mut i = 0u8;
+            loop {
+                i = i.wrapping_add(1);
+                // the connection was requested one step before it is accepted here
+                let id = op_start(&s2, "p1", "write", Some(cs.saturating_sub(1)));
+                match st.write_all(&[i]).await {
+                    Ok(()) => op_done(&s2, id, "ok".into()),
+                    Err(e) => {
+                        op_done(&s2, id, errk(&e));
+                        break;
+                    }
+                }
+                if i > 40 {
+                    break;
+                }
+            }
+        });
+    }
+}
+
 async fn bystander(s: S, me: &'static str, other: &'static str) -> turmoil::Result {
     let sock = UdpSocket::bind(("0.0.0.0", 7)).await?;
     let mut n = 0u32;
@@ -440,7 +497,7 @@ struct Run {
 fn run_once(work: Work, steps: usize, crash_at: Option<usize>, bounce_after: Option<usize>, second_crash_after: Option<usize>, bounce_only_at: Option<usize>, sel: usize, spawn_kind: usize) -> Run {
     let mut b = builder(1);
     b.min_message_latency(Duration::from_millis(1)).max_message_latency(Duration::from_millis(1));
-    b.tcp_capacity(if matches!(work, Work::TcpNotReading | Work::TcpVictimWrites) { 2 } else { 4 });
+    b.tcp_capacity(if matches!(work, Work::TcpNotReading | Work::TcpVictimWrites | Work::TcpVictimDials) { 2 } else { 4 });
     let mut sim = b.build();
     let st: S = Rc::new(RefCell::new(St::default()));
     let sv = st.clone();
@@ -457,6 +514,12 @@ fn run_once(work: Work, steps: usize, crash_at: Option<usize>, bounce_after: Opt
         Work::Udp => {
             let s1 = st.clone();
             sim.host("p1", move || udp_peer(s1.clone()));
+            let s2 = st.clone();
+            sim.host("m2", move || group_member(s2.clone()));
+        }
+        Work::TcpVictimDials => {
+            let s1 = st.clone();
+            sim.host("p1", move || writing_acceptor(s1.clone()));
         }
         Work::Idle | Work::FsRing => {}
         _ => {
@@ -600,7 +663,7 @@ fn run_once(work: Work, steps: usize, crash_at: Option<usize>, bounce_after: Opt
 }
 
 pub fn scenario(ch: &mut Chooser, thorough: bool) -> Exec {
-    let works: &[Work] = &[Work::TcpReading, Work::TcpNotReading, Work::TcpSlowAccept, Work::TcpVictimWrites, Work::Udp, Work::Idle, Work::FsRing];
+    let works: &[Work] = &[Work::TcpReading, Work::TcpNotReading, Work::TcpSlowAccept, Work::TcpVictimWrites, Work::TcpVictimDials, Work::Udp, Work::Idle, Work::FsRing];
     let work = *ch.of("workload", works);
     let steps = if thorough { 20 } else { 12 };
     let mode = ch.choose("fault", 3); // 0 crash (+bounce), 1 bounce without crash, 2 crash-bounce-crash
@@ -661,6 +724,10 @@ pub fn scenario(ch: &mut Chooser, thorough: bool) -> Exec {
         for o in &g.ops {
             // the SYN of a connect started in step s reaches V in step s+1 (1-tick latency)
             let arrival = o.conn_started + 1;
+            if o.op == "accept" {
+                // waiting at its own listener for the next caller: not blocked on the victim
+                continue;
+            }
             if o.op == "connect" {
                 if in_down(arrival) {
                     // reached the host while it was down: may stay pending, must not succeed
